@@ -16,6 +16,7 @@
 package c12topo
 
 import (
+	"encoding/base64"
 	"encoding/json"
 	"fmt"
 	"net"
@@ -49,6 +50,12 @@ type Variant struct {
 	QMin     int    `json:"qmin"`
 	Maxdepth int    `json:"maxdepth"`
 	NoEDNS   bool   `json:"noEdns"`
+	// Rel makes the budget relative to what firewall-off needed for the same topology
+	// (same qmin/maxdepth/edns group, run earlier in the list):
+	//   under    max_outbound = packets(off) - 1     (must go over budget)
+	//   exact    max_outbound = packets(off)
+	//   underInt max_internal = alias hops(off) - 1
+	Rel string `json:"rel"`
 	// DNSSEC work budgets (0 = default)
 	MaxSig   uint32 `json:"maxSig"`
 	MaxKeys  uint32 `json:"maxKeys"`
@@ -307,11 +314,10 @@ func (w *world) extraSigs(ex *authkit.Exchange, zn string) {
 				for k := 0; k < w.stress.Sigs; k++ {
 					b := dns.Copy(sig).(*dns.RRSIG)
 					// same key tag as the real signature, garbage signature bytes
-					raw := []byte(b.Signature)
-					if len(raw) > 4 {
+					if raw, err := base64.StdEncoding.DecodeString(b.Signature); err == nil && len(raw) > 12 {
 						raw[2+k%8] ^= byte(0x11 + k)
+						b.Signature = base64.StdEncoding.EncodeToString(raw)
 					}
-					b.Signature = string(raw)
 					out = append(out, b)
 				}
 			}
@@ -546,10 +552,53 @@ func (r *runner) runVariant(c *Case, v Variant) (variantOut, error) {
 
 func okRcode(rc string) bool { return rc == "NOERROR" || rc == "SERVFAIL" || rc == "NXDOMAIN" }
 
+func (c *Case) shape() string {
+	var parts []string
+	for _, n := range c.Nodes {
+		p := n.Kind
+		if len(n.Tgt) > 0 {
+			p += fmt.Sprint(n.Tgt)
+		}
+		if n.Kind == "REFGEN" {
+			p += fmt.Sprintf("f%d", n.Fan)
+		}
+		parts = append(parts, p)
+	}
+	return strings.Join(parts, " ")
+}
+
+func groupOf(v Variant) string { return fmt.Sprintf("q%d/d%d/e%v", v.QMin, v.Maxdepth, v.NoEDNS) }
+
 func (r *runner) runCase(c *Case) {
 	outs := map[string]variantOut{}
+	offOf := map[string]variantOut{}
 	var order []string
-	for _, v := range c.Variants {
+	for vi := range c.Variants {
+		v := c.Variants[vi]
+		if v.Rel != "" {
+			oo, ok := offOf[groupOf(v)]
+			if !ok || !oo.Q1.Got {
+				continue
+			}
+			switch v.Rel {
+			case "under":
+				if oo.Q1.Packets < 2 {
+					continue
+				}
+				v.MaxOut = uint32(oo.Q1.Packets - 1)
+			case "exact":
+				if oo.Q1.Packets < 1 {
+					continue
+				}
+				v.MaxOut = uint32(oo.Q1.Packets)
+			case "underInt":
+				if oo.Q1.Hops < 2 {
+					continue
+				}
+				v.MaxInt = uint32(oo.Q1.Hops - 1)
+			}
+			c.Variants[vi] = v
+		}
 		o, err := r.runVariant(c, v)
 		if err != nil {
 			r.res.Skip("%s/%s: build failed: %v", c.ID, v.Label, err)
@@ -562,6 +611,9 @@ func (r *runner) runCase(c *Case) {
 		outs[v.Label] = o
 		order = append(order, v.Label)
 		r.detail(c, v, o)
+		if v.Mode == "off" {
+			offOf[groupOf(v)] = o
+		}
 		r.res.Case(fmt.Sprintf("%s/%s/%s", c.ID, v.Label, o.Q1.sig()))
 		r.res.Count("queries", 2)
 		r.res.Count("upstream_packets", o.Q1.Packets+o.Q2.Packets)
@@ -610,8 +662,7 @@ func (r *runner) runCase(c *Case) {
 	// cross-variant oracles
 	groups := map[string][]Variant{}
 	for _, v := range c.Variants {
-		g := fmt.Sprintf("q%d/d%d/e%v", v.QMin, v.Maxdepth, v.NoEDNS)
-		groups[g] = append(groups[g], v)
+		groups[groupOf(v)] = append(groups[groupOf(v)], v)
 	}
 	for _, vs := range groups {
 		var off *Variant
@@ -633,7 +684,7 @@ func (r *runner) runCase(c *Case) {
 				got = "answer"
 			}
 			if got != c.Exp {
-				r.res.DriftNote("%s/%s: model predicts %s, code replied %s", c.ID, off.Label, c.Exp, oo.Q1.sig())
+				r.res.DriftNote("%s/%s {%s}: model predicts %s, code replied %s %v", c.ID, off.Label, c.shape(), c.Exp, oo.Q1.sig(), oo.Q1.EDE)
 			}
 		}
 		genuine := oo.Q1.Rcode == "NOERROR" && len(oo.Q1.Answers) > 0
@@ -663,6 +714,12 @@ func (r *runner) runCase(c *Case) {
 							o.Q1.EDE, o.Q2.EDE, c.ID), rp)
 					}
 					r.res.Count("private_checked", 1)
+				}
+				if v.Rel == "under" && !o.Q1.budgetEDE() {
+					r.res.DriftNote("%s: budget one below what firewall-off used (%d) did not end in the over-budget reply: %s", key, oo.Q1.Packets, o.Q1.sig())
+				}
+				if v.Rel == "exact" && o.Q1.sig() != oo.Q1.sig() {
+					r.res.DriftNote("%s: budget equal to what firewall-off used (%d) changed the reply: %s vs %s", key, oo.Q1.Packets, o.Q1.sig(), oo.Q1.sig())
 				}
 				if genuine && o.Q1.Got && o.Q1.Rcode == "NOERROR" && o.Q1.sig() != oo.Q1.sig() {
 					r.res.DriftNote("%s: enforce answered %s, off answered %s", key, o.Q1.sig(), oo.Q1.sig())
